@@ -18,6 +18,11 @@ CLAIMED = {
          "implementation compared with the extracted concrete model and checked by an independent Rust oracle of the rule.", "5/C11", ""),
  "C12": ("UniqueId uniqueness is part of `Rep`/`WF` (NoDup of ids, id set = ids held) and of the refinement lemmas; implementation compared with the model on histories with colliding ids.", "5/C12",
          "fetch_add atomicity of UniqueId::now is hardware/runtime, exercised not proven."),
+ "C13": ("What a proof can carry: the decoder models make every Rust panic site an explicit `Panic` outcome and the models' loops have explicit fuel, so no-panic / termination are statements over all byte strings "
+         "(attribute decoder: proven; binary decoder: correspondence of outcome classes on mutated files, theorems in progress); elementary laws of truncation, reader delivery and sink failure are proved in Properties/C13.v. "
+         "What lives in std::io adapters, xml-rs and the process (reader delivery, sink faults, stack depth, allocation sizes) is EXERCISED on the implementation by the fault harness: every truncation offset of a fixed set of "
+         "valid files in all formats (exhaustive), 1-byte / random / Interrupted readers, a failing sink at every output offset (exhaustive), ~2*10^5 mutations with a panic hook, a hang watchdog, an allocation probe and child processes.",
+         "5/C13", "PARTIAL BY NATURE: the reader-delivery, sink-fault, XML-decoder, stack and allocation clauses are implementation-side exercise, not theorems; allocation-site keys depend on the build profile."),
  "C14": ("Byte-level round-trip law proved for all attribute maps and all 19 supported types (attr_roundtrip: wf_amap m -> attr_encode m = Ok b -> attr_decode b = Ok (norm m), with norm exactly the "
          "permitted normalisations), empty map <-> zero bytes, type-id table injective, all 24 rotation ids round-trip, the document's rotation table equals the code's, snapping only within epsilon of a basis; "
          "an independent codec written from docs/attributes.md (Spec/AttrSpec.v) is run against every implementation blob and its blobs are fed to the real reader; model, spec and implementation are compared "
